@@ -166,6 +166,9 @@ def dest_key(lhost, dhost):
     D = dest_class(dhost)
     if lhost and dhost == lhost:
         return "listen_address"
+    if lhost == "" and dhost in ("0.0.0.0", "::"):
+        # a listener on all interfaces owns both wildcard sockets: this is the socket's own address, spelled canonically
+        return "listen_address"
     if lhost and D in ("ip4", "ip6", "mapped_ip4", "loopback4_other") and same_address(lhost, dhost):
         return "listen_address_respelled"
     if D == "wildcard6" and dhost != "::":
@@ -284,7 +287,8 @@ def generate(rng, tier):
     p2, p3 = listen_port + 1, listen_port + 2
     ports = [listen_port, listen_port, p2]
     shape = r.choice(["regular", "regular", "regular+socks5", "transparent", "reverse", "reverse_self", "upstream",
-                      "upstream_self", "udp_self", "dns_self", "dns+udp", "cross_transport", "regular+dnsboth"])
+                      "upstream_self", "udp_self", "dns_self", "dns+udp", "cross_transport", "regular+dnsboth",
+                      "shared_port", "shared_port", "shared_port_udp"])
     ops = []
     nops = r.randrange(3, 9)
 
@@ -344,6 +348,65 @@ def generate(rng, tier):
         modes = [f"dns@{listen_port}", f"reverse:udp://{auth(host, port)}@{p2}"]
         for _ in range(min(nops, 3)):
             rq(modes[1], "mode_target_udp", host, port)
+    elif shape == "shared_port":
+        # 2-3 TCP listeners bound to DIFFERENT addresses but the SAME port number (per-mode `@addr:port`), in any order;
+        # destinations are spelled as each listener's own explicit address (also the ones that are not last)
+        pool = SHARED_V4 + SHARED_V6 if r.random() < 0.5 else list(SHARED_V4)
+        r.shuffle(pool)
+        n = r.choice([2, 2, 3])
+        addrs = pool[:n]
+        kinds = [r.choice(["regular", "regular", "socks5", "transparent", "reverse:http://o.test:80",
+                           "upstream:http://p.test:3128"]) for _ in range(n)]
+        modes = []
+        for a, kd in zip(addrs, kinds):
+            if a == listen_host and r.random() < 0.5 and kd not in [m.split("@")[0] for m in modes]:
+                spec = f"{kd}@{listen_port}" if r.random() < 0.5 else kd  # address taken from the listen_host option
+                if spec == kd and any(m == kd for m in modes):
+                    spec = f"{kd}@{listen_port}"
+            else:
+                spec = f"{kd}@{a}:{listen_port}"
+            if spec in modes:
+                spec = f"{kd}@{a}:{listen_port}"
+            if spec in modes:
+                continue
+            modes.append(spec)
+        laddrs = [mode_listener(m, listen_host, listen_port)[0] for m in modes]
+        for _ in range(nops):
+            mode = r.choice(modes)
+            kd = mode.split("@")[0].split(":")[0]
+            x = r.random()
+            if x < 0.6:
+                host, port = r.choice(laddrs), listen_port
+            elif x < 0.72:
+                host, port = respell(r.choice(laddrs), r), listen_port
+            else:
+                host, port = gen_dest(r, listen_host, [listen_port, listen_port, p2])
+            if host == "":
+                host = r.choice(["0.0.0.0", "::"])
+            numeric_ok = _ip(host) is not None
+            if kd in ("regular", "upstream"):
+                via = r.choice(["absolute", "absolute", "connect", "connect", "rewrite", "rewrite_headers"])
+            elif kd == "socks5":
+                via = r.choice(["socks5_name", "socks5_ip"]) if numeric_ok else "socks5_name"
+            elif kd == "transparent":
+                via = r.choice(["original_dst", "original_dst", "host_header", "transparent_absolute", "rewrite"])
+                if via == "original_dst" and (not numeric_ok or host not in laddrs):
+                    via = "host_header"
+            else:
+                via = r.choice(["host_header", "rewrite", "rewrite_headers", "transparent_absolute"])
+            rq(mode, via, host, port)
+    elif shape == "shared_port_udp":
+        # the same for UDP: two UDP reverse proxies on one port number, one of them pointing at the other (or at itself)
+        pool = list(SHARED_V4) + (list(SHARED_V6) if r.random() < 0.4 else [])
+        r.shuffle(pool)
+        a1, a2 = pool[0], pool[1]
+        target = r.choice([a1, a1, a2])
+        modes = [f"reverse:udp://9.9.9.9:53@{a1}:{listen_port}", f"reverse:udp://{auth(target, listen_port)}@{a2}:{listen_port}"]
+        if r.random() < 0.5:
+            modes.reverse()
+        me = [m for m in modes if m.endswith(f"@{a2}:{listen_port}")][0]
+        for _ in range(min(nops, 3)):
+            rq(me, "mode_target_udp", target, listen_port)
     else:  # cross_transport: UDP target equal to a TCP-only listener and vice versa -> not a loop
         host, port = gen_dest(r, listen_host, [listen_port])
         port = listen_port
